@@ -12,6 +12,7 @@
 mod cls;
 mod dec;
 mod enc;
+mod oneshot;
 mod encchar;
 mod label;
 mod memconv;
@@ -32,6 +33,7 @@ const MODULES: &[(GenFn, ReplayFn)] = &[
     (cls::generate, cls::replay),
     (encchar::generate, encchar::replay),
     (enc::generate, enc::replay),
+    (oneshot::generate, oneshot::replay),
 ];
 
 fn main() {
